@@ -60,8 +60,11 @@ class WeightSaveCallback(Callback):
         if (self.check_interval > 0 and batch_idx > 0) and (
             (batch_idx - 1) % self.check_interval == 0
         ):
-            if trainer.logged_metrics["train/loss"] < self.current_loss:
-                self.current_loss = trainer.logged_metrics["train/loss"]
+            # After trainer.fit(..., ckpt_path=...) the first batch has an index > 0, but this
+            # trainer has not logged a loss yet: there is nothing to compare at that check.
+            loss = trainer.logged_metrics.get("train/loss")
+            if loss is not None and loss < self.current_loss:
+                self.current_loss = loss
                 torch.save(
                     self.model.state_dict(),
                     self.path + "/" + self.name + "_min_loss.pt",
